@@ -3,4 +3,4 @@ cd /verif/lean
 cat .scratch_c09int/head.lean .scratch_c09int/sec_*.lean > HexProofs/Numeric/Total.lean
 printf '\nend Numeric\nend Hex\n' >> HexProofs/Numeric/Total.lean
 cat .scratch_c09int/axioms.lean >> HexProofs/Numeric/Total.lean 2>/dev/null
-lake build HexProofs.Numeric.Total 2>&1 | grep -v "Replayed\|^info: HexProofs/Numeric/Series\|^info: HexProofs/Framework" | tail -${1:-40}
+lake build HexProofs.Numeric.Total 2>&1 | grep -A12 "Numeric/Total.lean\|^error\|[a-z] HexProofs.Numeric.Total\|build failed" | head -${1:-80}
